@@ -7,7 +7,12 @@ import Driver.Util
     `retain` / `release`, the internal one by `enqueue` (+2), `target` (+1), the end of a drain (−2), `untarget` or the external
     dispose (−1). The model has no step from a state whose count is already −1 (resurrection) or below the weight being dropped
     (over-release): such a transition is unexplained. Per object: the thread that takes the external count to −1 is the one that
-    drops the internal reference standing for it; the internal count reaches −1 at most once, and nothing touches the words after. -/
+    drops the internal reference standing for it; the internal count reaches −1 at most once, and nothing touches the words after.
+    The harness numbers a record after the atomic operation it describes, so two records of one word can be logged in the opposite
+    order of their operations. A record logged after the object's dispose is therefore a touch after dispose only when its old
+    value is negative (the word really was −1 already); with a non-negative old value it is replayed as usual, and the records of
+    the internal word of a disposed object must still chain up: every value is left as often as it is entered, except the first
+    value (left once more) and −1 (entered once more) — the condition for the records to be a reordering of one linear history. -/
 namespace RefChk
 open RefP
 
@@ -34,13 +39,19 @@ def irefStep (add : Bool) (w : Nat) (o : Int) (inXdispose : Bool) : List (Int ×
         else (step { iref := o, xalive := false, xholders := [], inner := (o + 1).toNat } 1 .idle .untarget).map fun r => (r.1.iref, r.2)
       else []
 
+def bump (l : List ((Nat × Int) × Int)) (k : Nat × Int) (d : Int) : List ((Nat × Int) × Int) :=
+  match l with
+  | [] => [(k, d)]
+  | e :: t => if e.1 == k then (e.1, e.2 + d) :: t else e :: bump t k d
+
 def main (paths : List String) : IO UInt32 := do
   let mut total := 0; let mut ok := 0; let mut bad : List String := []
-  let mut objs := 0; let mut disposed := 0
+  let mut objs := 0; let mut disposed := 0; let mut late := 0
   for path in paths do
     let mut xd : List ((Nat × Nat)) := []     -- (object, thread) between external −1 and its internal release
     let mut dead : List Nat := []
     let mut seen : List Nat := []
+    let mut bal : List ((Nat × Int) × Int) := []     -- ((object, value of the internal word), times left − times entered)
     for line in (← IO.FS.readFile path).splitOn "\n" do
       match line.splitOn " " with
       | ["F", id, tid, word, op, old, new, _func] =>
@@ -48,9 +59,12 @@ def main (paths : List String) : IO UInt32 := do
         if op ≠ "5" ∧ op ≠ "6" then continue
         total := total + 1
         if !seen.contains id then seen := id :: seen; objs := objs + 1
-        if dead.contains id then
+        if dead.contains id ∧ (o < 0 ∨ word == "1") then
           bad := s!"{path}: reference count of an object touched after its internal count had reached -1 (disposed): {line}" :: bad
           continue
+        if dead.contains id then late := late + 1
+        if word == "0" then
+          bal := bump (bump bal (id, o) 1) (id, n) (-1)
         let add := op == "5"
         let w := (if add then n - o else o - n).toNat
         if word == "1" then
@@ -64,13 +78,22 @@ def main (paths : List String) : IO UInt32 := do
           | some (_, pc) =>
             ok := ok + 1
             if inX then xd := xd.filter (· ≠ (id, tid))
-            if pc == .dispose then dead := id :: dead; disposed := disposed + 1
+            if pc == .dispose then
+              if dead.contains id then bad := s!"{path}: internal count of an object reached -1 twice: {line}" :: bad
+              dead := id :: dead; disposed := disposed + 1
           | none => bad := s!"{path}: internal count transition is not a step of RefP (over-release / resurrection / wrong weight): {line}" :: bad
       | _ => pure ()
     for (id, tid) in xd do
       if !dead.contains id then pure ()   -- the internal release of the external dispose may come after the trace ends
       else bad := s!"{path}: object {id}: thread {tid} took the external count to -1 but the object was disposed without its internal release" :: bad
-  IO.println s!"refcount transitions {total}  explained-by-RefP.step {ok}  UNEXPLAINED {bad.length}  (objects {objs}, disposed {disposed})"
+    for id in dead do
+      let mine := bal.filter fun e => e.1.1 == id && e.2 != 0
+      let okChain := match mine with
+        | [a, b] => (a.1.2 == -1 && a.2 == -1 && b.1.2 ≥ 0 && b.2 == 1) || (b.1.2 == -1 && b.2 == -1 && a.1.2 ≥ 0 && a.2 == 1)
+        | _ => false
+      if !okChain then
+        bad := s!"{path}: object {id}: the records of its internal count are not a reordering of one linear history ending at -1 (value, left-entered): {mine.map fun e => (e.1.2, e.2)}" :: bad
+  IO.println s!"refcount transitions {total}  explained-by-RefP.step {ok}  UNEXPLAINED {bad.length}  (objects {objs}, disposed {disposed}, records logged after their object's dispose record {late})"
   for b in bad.reverse.take 8 do IO.println b
   return if bad.isEmpty then 0 else 1
 
